@@ -132,9 +132,14 @@ func stuckInCodeUnderTest(stack string) (string, bool) {
 			state = state[:j]
 		}
 	}
-	switch state {
-	case "chan send", "chan receive", "select", "sync.Mutex.Lock", "semacquire", "sync.RWMutex.Lock", "sync.WaitGroup.Wait", "sync.Cond.Wait":
-	default:
+	blocked := false
+	for _, p := range []string{"chan send", "chan receive", "select", "sync.Mutex.Lock", "semacquire", "sync.RWMutex.Lock", "sync.RWMutex.RLock", "sync.WaitGroup.Wait", "sync.Cond.Wait"} {
+		// also "chan receive (nil chan)", "select (no cases)"
+		if strings.HasPrefix(state, p) {
+			blocked = true
+		}
+	}
+	if !blocked {
 		return "", false
 	}
 	for _, ln := range lines[1:] {
